@@ -3756,11 +3756,13 @@ evhttp_dispatch_callback(struct httpcbq *callbacks, struct evhttp_request *req)
 	offset = strlen(path);
 	if ((translated = mm_malloc(offset + 1)) == NULL)
 		return (NULL);
-	evhttp_decode_uri_internal(path, offset, translated,
+	offset = (size_t)evhttp_decode_uri_internal(path, offset, translated,
 	    0 /* decode_plus */);
 
 	TAILQ_FOREACH(cb, callbacks, next) {
-		if (!strcmp(cb->what, translated)) {
+		/* the decoded path may contain NUL ("%00") */
+		if (strlen(cb->what) == offset &&
+		    !memcmp(cb->what, translated, offset)) {
 			mm_free(translated);
 			return (cb);
 		}
